@@ -35,13 +35,13 @@ def random_swc(rng, single_point_soma=None, max_points=40, dense=False):
             cur = add(t, cur, p, rng.choice([0.25, 0.5, 1.0, 1.5]))
         if depth < 3 and rng.random() < 0.7:
             for _ in range(rng.choice([2, 2, 3])):
-                t2 = t if rng.random() < 0.7 else rng.choice([2, 3, 4])
+                t2 = t if rng.random() < 0.7 else rng.choice([2, 3, 4, 2, 3, 4, 5, 6, 7])
                 grow(cur, p, t2, depth + 1)
 
     starts = [soma_end] if rng.random() < 0.5 else [root, soma_end]
     for _ in range(rng.randint(1, 3)):
         s = rng.choice(starts)
-        grow(s, [rows[s - 1][2], rows[s - 1][3], rows[s - 1][4]], rng.choice([2, 3, 4]), 0)
+        grow(s, [rows[s - 1][2], rows[s - 1][3], rows[s - 1][4]], rng.choice([2, 3, 4, 2, 3, 4, 6]), 0)
     return rows
 
 
